@@ -356,7 +356,10 @@ class ConnectionState:
                 resp.code = ResponseCode.of(b'EXPUNGEISSUED')
             elif cmd.silent:
                 continue
-            flags = msg.get_flags(session_flags)
+            # the flags as they were synchronized with this session, which
+            # may already include a later change by another session
+            synced = None if msg.expunged else updates.messages.get(msg.uid)
+            flags = (synced or msg).get_flags(session_flags)
             fetch_data: list[FetchValue] = [
                 FetchValue.of(_flags_attr, List(flags, sort=True))]
             if cmd.uid:
